@@ -132,6 +132,7 @@ func (g *grid) equal(o *grid) bool {
 type transform struct {
 	Pad, Scale, Rot int
 	Mirror          bool
+	Extra           [4]int `json:",omitempty"` // further white pixels left, top, right, bottom (before the rotation): asymmetric placement
 }
 
 // apply: mirror (transpose of the module matrix), upscale, pad, rotate clockwise.
@@ -139,7 +140,15 @@ func (t transform) apply(g *grid) *grid {
 	if t.Mirror {
 		g = g.transpose()
 	}
-	return g.scalePad(t.Scale, t.Pad).rotate(t.Rot)
+	g = g.scalePad(t.Scale, t.Pad)
+	if t.Extra != [4]int{} {
+		o := newGrid(g.w+t.Extra[0]+t.Extra[2], g.h+t.Extra[1]+t.Extra[3])
+		for y := 0; y < g.h; y++ {
+			copy(o.px[(y+t.Extra[1])*o.w+t.Extra[0]:], g.px[y*g.w:(y+1)*g.w])
+		}
+		g = o
+	}
+	return g.rotate(t.Rot)
 }
 
 // selfTestTransforms checks the check's own image algebra on an asymmetric raster, so that a
@@ -199,5 +208,8 @@ func selfTestTransforms() string {
 }
 
 func (t transform) String() string {
+	if t.Extra != [4]int{} {
+		return fmt.Sprintf("pad%d+ltrb%v/x%d/rot%d/mirror=%v", t.Pad, t.Extra, t.Scale, t.Rot, t.Mirror)
+	}
 	return fmt.Sprintf("pad%d/x%d/rot%d/mirror=%v", t.Pad, t.Scale, t.Rot, t.Mirror)
 }
